@@ -7,6 +7,7 @@ import (
 	"context"
 	"encoding/json"
 	"fmt"
+	"verif/busmodel"
 
 	eventbus "github.com/jilio/ebu"
 	"github.com/jilio/ebu/state"
@@ -60,6 +61,7 @@ type UpSource struct {
 	ID int    `json:"id"`
 	S  string `json:"s"`
 }
+
 // UpSibling is a second legacy type migrated to the same targets as UpSource;
 // its upcaster is registered next to UpSource's and cleared again
 // (ClearUpcastsForType) before anything is replayed - which must not disturb
@@ -267,6 +269,7 @@ type Case struct {
 	Strings    []string `json:"strings"`               // their string payloads (cyclic)
 	Noise      []int    `json:"noise"`                 // shapes of other events published in between (never the subject's)
 	StoreFirst bool     `json:"store_first,omitempty"` // option order
+	Obs        bool     `json:"obs,omitempty"`         // an Observability implementation is installed (it must not affect names)
 }
 
 func Run(c *Case) *vkit.Outcome {
@@ -278,6 +281,9 @@ func Run(c *Case) *vkit.Outcome {
 		opts = []eventbus.Option{eventbus.WithStore(store), eventbus.WithReplayBatchSize(2)}
 	} else {
 		opts = []eventbus.Option{eventbus.WithReplayBatchSize(2), eventbus.WithStore(store)}
+	}
+	if c.Obs {
+		opts = append(opts, busmodel.Ambient(busmodel.AmbObs)...)
 	}
 	bus := eventbus.New(opts...)
 	ctx := context.Background()
